@@ -19,6 +19,7 @@ import Driver.Journal
 import Driver.JsonRpc
 import Driver.NodeCache
 import Driver.NodeSync
+import Driver.NodeReorg
 import Driver.ConsensusStore
 import Driver.Downloader
 /-
@@ -49,6 +50,7 @@ def registry : List Obj := [
   pureObj pureProto,
   mkObj ([] : SyncSt) syncStep,
   mkObj ({} : NsSt) nsStep,
+  mkObj ({} : NrSt) nrStep,
   contractObj,
   rewardsNodeObj,
   pureObj pureAbi,
